@@ -48,11 +48,11 @@ PROPS = {
     "C08": {
         "design_ref": "6.5/C08",
         "lean_modules": ["Tulz.Props.C08", "Tulz.Props.C08X"],
-        "theorems": ["TPoolX.C08X_pool_bounded", "TPoolX.C08X_stop_quiescent", "TPoolX.C08X_stop_progress", "TPoolX.C07X_ownership", "TPoolX.xstep?_sound", "TPool.C08_max", "TPool.C08_stop_progress", "TPool.C08_stop_measure", "TPool.C08_stop_returns", "TPool.C08_after_stop",
+        "theorems": ["TPoolX.C08X_pool_bounded", "TPoolX.C08X_stop_quiescent", "TPoolX.C08X_stop_progress", "TPoolX.C08X_stop_measure", "TPoolX.C08X_stop_returns", "TPoolX.C07X_ownership", "TPoolX.xstep?_sound", "TPool.C08_max", "TPool.C08_stop_progress", "TPool.C08_stop_measure", "TPool.C08_stop_returns", "TPool.C08_after_stop",
                      "TPool.C08_stopped_state", "TPool.C08_restart", "TPool.xstep?_sound", "TPool.xstep?_complete"],
         "technique": "Lean 4 inductive invariant (flag write and predicate evaluation exclude each other => nobody parked un-notified once stop() has notified) + progress + strictly decreasing measure inside stop() + restart lemma, any program / max / interleaving; lock-step replay and deadlock detection on the real code, whose cv.wait entry point is exactly the evaluated-but-not-blocked window",
         "level_text": "Machine-checked proof that the pool never holds more than max threads and every live worker is in the pool; that while the owner is inside stop() some step is always enabled and every step of any thread (spurious wake-ups included) strictly decreases a natural-number measure, so stop() returns in every fair interleaving whatever the workers were doing (idle, evaluated the predicate but not yet blocked, waking up, running a task); that on return the pool is empty, every worker thread has exited (no task running), the queue is empty and every task still queued was destroyed, and that this persists until the next start; and that a start after a stop spawns a fresh worker that can take the task at once, with every run finite and the task run exactly once unless a later clear()/stop() drops it. Tied to ThreadPool.cpp by lock-step replay, the scheduler's deadlock detector around stop() and trace monitors (getThreadCount() == 0, no task event after stop, all spawned threads exited and joined, live workers <= max, restart spawns).",
-        "level_note": "Trusted: as C07. With expiring workers and update() (model TPoolX, virtual clock): pool.length <= max, every thread outside the pool has completed, stop() leaves pool = [] / every worker ever created completed / queue empty / every submitted task destroyed, and stop() always has an enabled step (C08X_*); that stop() returns in every fair run and the restart liveness are proved for non-expiring workers only. The theorems are about the REPAIRED stop() (finding F6: flag written under m_queueMutex); the unrepaired code deadlocks in the window the scheduler exposes.",
+        "level_note": "Trusted: as C07. With expiring workers and update() (model TPoolX, virtual clock): pool.length <= max, every thread outside the pool has completed, stop() leaves pool = [] / every worker ever created completed / queue empty / every submitted task destroyed, stop() always has an enabled step and every step inside stop() decreases a measure, so stop() returns in every interleaving (C08X_*); the restart liveness is proved for non-expiring workers only. The theorems are about the REPAIRED stop() (finding F6: flag written under m_queueMutex); the unrepaired code deadlocks in the window the scheduler exposes.",
         "trusted_base": TB, "assumptions": ASSUME,
     },
 }
